@@ -210,6 +210,13 @@ def run(ctx):
                 ctx.fail("gate observation table rejected by TLC", dict(text=j.violation["text"][:400]))
     finally:
         shutil.rmtree(wd, ignore_errors=True)
+    # injections at random points of adversarial connection histories (loss, duplication, reordering, fragments, all retry modes, wrap crossing): clause F_noeffect of Trace_Conn
+    from props import conn_judge as J
+    q = ctx.quick
+    J.run_scenarios(ctx, "C01", [
+        dict(name="injections-in-histories", n=4 if q else 30, nticks=700 if q else 2500, heal_after=500 if q else 2000,
+             policy=dict(p_forge=0.5, p_loss=0.1, p_dup=0.05, maxdelay=10), world=dict(start_seq="alt")),
+    ])
 
 
 def replay(ctx, doc):
